@@ -6,7 +6,7 @@ as tasks of one simulated loop, fed by suspending streams/callables of seeded fl
 compared with the real stdlib function run over the sync twins of the very same objects.
 """
 
-from ..actors import World, Item, is_source_item
+from ..actors import World, Item, is_source_item, ident
 from ..runner import Outcome
 from ..tools import TOOLS, draw_cfg
 from ..tooldiff import Run, drive_tool, ref_tool, project_values, first_diff
@@ -47,6 +47,11 @@ def compare_values(out, spec, run, ref):
         out.violate("C01.differs_from_stdlib", (spec.tool, kind),
                     {"position": pos, "async": repr(ea), "stdlib": repr(eb), "scenario": spec.describe()})
         return False
+    # the caller's objects are not modified (e.g. a reduction adding in place into the first item)
+    before = getattr(spec, "_items_before", None)
+    if before is not None and before != [ident(list(p.items)) for p in spec.srcs]:
+        out.violate("C01.source_item_mutated", (spec.tool,), {"scenario": spec.describe(), "before": repr(before)})
+        return False
     # identity of source items: the very same objects
     for x, y in zip(run.yields, ref.yields):
         if is_source_item(y) and x is not y:
@@ -66,6 +71,7 @@ def execute(st, ctx):
         spec, _ = gen_tool(st, cfg, prefix="abc"[t] if ntenants > 1 else "")
         steps = bounded_steps(ch, spec) if TOOLS[spec.tool].infinite else None
         run = Run(World(sim, own_log=True))
+        spec._items_before = [ident(list(p.items)) for p in spec.srcs]
         sim.spawn(drive_tool(spec, run, steps, close=True))
         tenants.append((spec, steps, run))
     run_sim(sim)
